@@ -269,6 +269,22 @@ def check(ctx):
                                f"{ci.name}.{mname} swallows a socket error without setting _stop_threads: the state machine never "
                                f"learns that the peer is gone", key=f"signal:{mname}")
 
+    # who may clear the "connected" flag: close() refuses to run when it is already False, so any other writer makes the
+    # release of selector and socket unreachable (and DiameterAssociation.close raises instead of closing)
+    wr = []
+    for q, fi in funcs.items():
+        if fi.mod.name != "bromelia.transport":
+            continue
+        for x in walk_no_nested(fi.node):
+            if isinstance(x, ast.Assign) and any(ast.unparse(t) == "self.is_connected" for t in x.targets) \
+                    and isinstance(x.value, ast.Constant) and x.value.value is False and fi.name not in ("__init__", "close"):
+                wr.append((fi, x))
+    ctx.decide(not wr, "R-WHO/connected-flag", "bromelia.transport.*.is_connected", "bromelia/transport.py",
+               "is_connected is cleared only by close() (after the guard) and initialised in __init__",
+               f"is_connected is set to False outside close(): {[f.qual for f, _ in wr]} - close() returns early / "
+               f"DiameterAssociation.close raises on a transport that is `not connected`, so selector and socket are never released and "
+               f"the state-machine thread dies on the way to Closed", key="connected_writers")
+
     # ---- 6 restart guard ------------------------------------------------------------------------------------------
     ctx.clause = "6-restart"
     st = ctx.need(funcs.get("bromelia.setup.Diameter.start"), "Diameter.start")
